@@ -866,13 +866,35 @@ class Unit:
         suffix = "_canary" if canary else ""
         path = os.path.join(outdir, self.name + suffix + ".rs")
         lines = []
+        pending_lemma = None
+        self.lemmas = getattr(self, "lemmas", [])
+        lemma_names = []
         for k, (ln, org) in enumerate(self.out):
+            # template-level proof fns get a canary too (vacuity guard for lemmas)
+            if org and org[0] == "template":
+                mlem = re.search(r"\bproof\s+fn\s+(\w+)", ln)
+                if mlem:
+                    pending_lemma = mlem.group(1)
+                    if "{" in ln.split("//")[0]:
+                        pending_lemma = None      # one-line lemma: no canary
+                if pending_lemma and ln.lstrip().startswith("{"):
+                    lemma_names.append(pending_lemma)
+                    if canary:
+                        i0 = ln.index("{")
+                        ln = ln[:i0 + 1] + " assert(false); " + ln[i0 + 1:]
+                    pending_lemma = None
+                elif pending_lemma and not mlem and ln.rstrip().endswith("{") and not ln.lstrip().startswith("//"):
+                    lemma_names.append(pending_lemma)
+                    if canary:
+                        ln = ln + " assert(false); "
+                    pending_lemma = None
             if k == 0:
                 ln = "#![feature(allocator_api)] #![allow(non_upper_case_globals, unused_imports, unused_variables, dead_code, unused_mut, unused_parens, unused_braces)] " + ln
             if ln.startswith("//@@CANARY"):
                 lines.append("proof { assert(false); } " + ln if canary else ln)
             else:
                 lines.append(ln)
+        self.lemmas = lemma_names
         with open(path, "w") as f:
             f.write("\n".join(lines) + "\n")
         if not canary:
@@ -884,6 +906,7 @@ class Unit:
                 "types": self.types,
                 "rewrites": self.log,
                 "tag_ids": getattr(self, "tag_ids", {}),
+                "lemmas": lemma_names,
                 "lines": [list(o) if o else None for _, o in self.out],
             }
             with open(os.path.join(outdir, self.name + ".map.json"), "w") as f:
